@@ -20,6 +20,10 @@ var vC16Functions = []string{
 	`(defn f [#p #r] (+ (force #r) (force #p)))`,          // two lazy, forced in reverse order
 	`(defn f [q & rest] (list q rest))`,                   // variadic tail is strict
 	`(defn f [#p & rest] (begin (t 555) (list (force #p) rest)))`, // lazy then variadic
+	// the rest parameter spelled with the lazy sigil: the variadic tail is evaluated before the call all the same
+	`(defn f [q & #rest] (begin (t 555) (list q #rest)))`,
+	`(defn f [#p & #rest] (begin (t 555) (list #rest (force #p))))`,
+	`(defn f [& #rest] (begin (t 555) #rest))`,
 	// the name was bound before, to a function of another shape (strict where the new one is lazy, and the reverse)
 	`(defn f [p q] (+ p q)) (def cnt 0) (defn f [#p q] (cond (< cnt 2) (begin (set cnt (+ cnt 1)) (f (t (+ q cnt)) q)) (force #p)))`,
 	`(defn f [#p #q] 0) (def cnt 0) (defn f [p q] (cond (< cnt 2) (begin (set cnt (+ cnt 1)) (f (t (+ q cnt)) q)) (+ p q)))`,
